@@ -625,7 +625,7 @@ func (m *Machine) intrinsic(s *State, f *Frame, x *ssa.Call, name string, callee
 		m.pushFrame(s, m.hpkg.Func("zzWithCancel"), args[:1], nil, x)
 		return nil, true
 	case name == "time.After":
-		id := s.alloc(ChanV{cap: 1, buf: []Value{m.zero(x.Type().Underlying().(*types.Chan).Elem())}})
+		id := s.alloc(ChanV{cap: 1, timer: true, buf: []Value{m.zero(x.Type().Underlying().(*types.Chan).Elem())}})
 		f.env[x] = Ptr{obj: id}
 		return nil, true
 	case name == "go.uber.org/multierr.Append":
@@ -1074,7 +1074,7 @@ func (m *Machine) timeIntrinsic(s *State, f *Frame, x *ssa.Call, name string, ar
 		f.env[x] = Sc{c.BV(0, 64)}
 		return nil, true
 	case "time.After":
-		id := s.alloc(ChanV{cap: 1, buf: []Value{m.zero(x.Type().Underlying().(*types.Chan).Elem())}})
+		id := s.alloc(ChanV{cap: 1, timer: true, buf: []Value{m.zero(x.Type().Underlying().(*types.Chan).Elem())}})
 		f.env[x] = Ptr{obj: id}
 		return nil, true
 	case "time.NewTimer":
@@ -1084,9 +1084,9 @@ func (m *Machine) timeIntrinsic(s *State, f *Frame, x *ssa.Call, name string, ar
 		et := tk.f[0]
 		_ = et
 		if m.timersOff {
-			tk.f[0] = Ptr{obj: s.alloc(ChanV{cap: 1})}
+			tk.f[0] = Ptr{obj: s.alloc(ChanV{cap: 1, timer: true})}
 		} else {
-			tk.f[0] = Ptr{obj: s.alloc(ChanV{cap: 1, buf: []Value{m.zero(m.timeType(x))}})}
+			tk.f[0] = Ptr{obj: s.alloc(ChanV{cap: 1, timer: true, buf: []Value{m.zero(m.timeType(x))}})}
 		}
 		f.env[x] = Ptr{obj: s.alloc(tk)}
 		return nil, true
@@ -1105,6 +1105,19 @@ func (m *Machine) timeIntrinsic(s *State, f *Frame, x *ssa.Call, name string, ar
 	case "(*time.Ticker).Stop", "(*time.Timer).Stop":
 		if x != nil && name == "(*time.Timer).Stop" {
 			f.env[x] = Sc{c.Bool(true)}
+		}
+		if name == "(*time.Timer).Stop" {
+			// Go >= 1.23 (go.mod says 1.24): after Stop returns no stale value can be received from the channel
+			if tp, ok := args[0].(Ptr); ok && tp.obj != 0 {
+				if tk, ok := s.load(tp).(StructV); ok && len(tk.f) > 0 {
+					if cp, ok := tk.f[0].(Ptr); ok && cp.obj != 0 {
+						if ch, ok := s.load(cp).(ChanV); ok && len(ch.buf) > 0 {
+							ch.buf = nil
+							s.store(cp, ch)
+						}
+					}
+				}
+			}
 		}
 		return nil, true
 	}
